@@ -656,4 +656,19 @@ class MetadataManager:
             _version, filename = hinted
             if self.storage.exists(f"{self.metadata_path}/{filename}"):
                 return hinted
-        return self._recover_version_from_files()
+        recovered = self._recover_version_from_files()
+        if hinted is not None and (recovered is None or recovered[0] < hinted[0]):
+            # The hint is written only after its metadata file is durable, so a
+            # well-formed hint naming version N testifies that N was committed.
+            # If that file is gone and nothing at or above N is left, the latest
+            # committed state is LOST: silently falling back to an older version
+            # would present a subset of the data as the whole table - and the
+            # next garbage collection would delete the newer snapshots' files.
+            raise RuntimeError(
+                f"Table metadata is inconsistent: the version hint names "
+                f"'{hinted[1]}' (version {hinted[0]}), which is missing, and the highest "
+                f"metadata version on storage is "
+                f"{recovered[0] if recovered is not None else 'none'}. Refusing to fall "
+                f"back to an older version."
+            )
+        return recovered
